@@ -432,7 +432,13 @@ func runC13(r *lib.Run) {
 					if len(kl) == 1 {
 						ctx = kl[0]
 					}
-					r.Violate("tree-differs-from-model", featOf(d), d.String(), w(map[string]interface{}{"delta": d.String()}))
+					note := ""
+					if l := model.Leaves[d.Path]; l != nil {
+						note = cfg.KeyNote(l.Elems)
+					} else if l := got.Leaves[d.Path]; l != nil {
+						note = cfg.KeyNote(l.Elems)
+					}
+					r.Violate("tree-differs-from-model", featOf(d)+note, d.String(), w(map[string]interface{}{"delta": d.String()}))
 				}
 				if bad {
 					break
